@@ -113,7 +113,7 @@ def L1(kind, state, shape, ring=1, tiers=('quick', 'thorough'), timeout=900, pro
 API_FUNCS = [
     ('cat_is_busy', 'cat_is_busy(&h_obj)', ['C16', 'C17', 'C18', 'C03']),
     ('cat_is_hold', 'cat_is_hold(&h_obj)', ['C14', 'C16', 'C17', 'C18', 'C03']),
-    ('cat_hold_exit', 'cat_hold_exit(&h_obj,(cat_status)nondet_int())', ['C14', 'C16', 'C17', 'C03']),
+    ('cat_hold_exit', 'cat_hold_exit(&h_obj,(cat_status)nondet_int())', ['C13', 'C14', 'C16', 'C17', 'C03']),
     ('cat_is_unsolicited_buffer_full', 'cat_is_unsolicited_buffer_full(&h_obj)', ['C13', 'C16', 'C17', 'C03']),
     ('cat_trigger_unsolicited_event', 'cat_trigger_unsolicited_event(&h_obj,h_pick_cmd(),(cat_cmd_type)nondet_int())', ['C13', 'C16', 'C17', 'C03']),
     ('cat_trigger_unsolicited_read', 'cat_trigger_unsolicited_read(&h_obj,h_pick_cmd())', ['C13', 'C16', 'C17', 'C03']),
